@@ -98,10 +98,19 @@ func symAffine(name string, v ssa.Value) Affine {
 	return a
 }
 
+// affineEnv optionally maps phis to the incoming value of the case under
+// evaluation (per-case evaluation of a type switch); nil outside such scopes.
+var affineEnv map[*ssa.Phi]ssa.Value
+
 // affineOf evaluates an integer SSA value.
 func affineOf(v ssa.Value, depth int) Affine {
 	if v == nil {
 		return newAffine()
+	}
+	if ph, ok := v.(*ssa.Phi); ok && affineEnv != nil {
+		if sub, ok := affineEnv[ph]; ok && depth < 10 {
+			return affineOf(sub, depth+1)
+		}
 	}
 	if depth > 10 {
 		return symAffine(resolvedPath(v), v)
@@ -142,6 +151,13 @@ func affineOf(v ssa.Value, depth int) Affine {
 		id := ir.CallID(x)
 		if id == "builtin.len" || id == "builtin.cap" {
 			return symAffine("len("+resolvedPath(x.Call.Args[0])+")", x)
+		}
+		if id == "encoding/binary.Size" {
+			if n := binarySize(ir.StripIface(x.Call.Args[0]).Type()); n >= 0 {
+				a := newAffine()
+				a.K = int64(n)
+				return a
+			}
 		}
 		if strings.HasSuffix(id, ".Len") || strings.HasSuffix(id, ".Size") {
 			args := ir.CallArgs(x)
